@@ -248,7 +248,8 @@ def gen_layout(rng, lid, tier):
 def dreq(c, f):
     """what the disambiguator takes for 'no default': `cl_fields[name].default in (NOTHING, MISSING)` — true for a
     dataclass field that only has a default_factory (observation recorded in the report)"""
-    return f["dflt"] == "req" or (c["kind"] == "dc" and f["dflt"] == "factory")
+    # (until fix F49 a dataclass field with only a default_factory also counted: `default in (NOTHING, MISSING)`)
+    return f["dflt"] == "req"
 
 
 def esc(s):
